@@ -173,7 +173,34 @@ class proceed:
     def resume(self):
         """The generator is resumed: whatever is current now belongs to the
         caller, and the generator's own handlers are current again."""
-        self.outer = HandlerCollection.current.get()
+        before, self.outer = self.outer, HandlerCollection.current.get()
+        if self.outer is not before:
+            # Overlays were entered or left around the generator while it was
+            # suspended: the generator's own collection must follow, i.e.
+            # stop notifying the handlers that are gone (and everything
+            # derived from them) and carry the new ones into nested calls.
+            old = before.handler_pairs if before else []
+            new = self.outer.handler_pairs if self.outer else []
+
+            def _has(pairs, pair):
+                return any(s is pair[0] and a is pair[1] for s, a in pairs)
+
+            gone = [acc for sel, acc in old if not _has(new, (sel, acc))]
+            pairs = [
+                (sel, acc)
+                for sel, acc in self.inner.handler_pairs
+                if not any(
+                    acc is g or getattr(acc, "origin", None) is g for g in gone
+                )
+            ]
+            pairs += [
+                (sel, acc)
+                for sel, acc in new
+                if not sel.immediate
+                and not _has(old, (sel, acc))
+                and not _has(pairs, (sel, acc))
+            ]
+            self.inner = HandlerCollection(pairs)
         HandlerCollection.current.set(self.inner)
         self.suspended = False
 
